@@ -229,6 +229,29 @@ def build(active_known=frozenset()):
         c_.replay(rp_nil)
         c_.replay_without_model = True
 
+    # a decimal against a float: whatever the float side of compare answers for (y, x), the decimal side answers the opposite for (x, y) -
+    # antisymmetry across the two dispatch branches, for every pair (the decimal is never rounded to a float first)
+    from basilisp.lang import runtime as rt_
+
+    CMP = z3.Function("compare_by_the_float_branch", V.Val, V.Val, z3.IntSort())
+
+    def dec_setup(eng, st):
+        eng.models[id(rt_.compare)] = Model("compare (the dispatcher, used here for the float-first call only: an abstract three-way result)",
+                                            lambda e, s, a, k: iter([(s, SV(V.mk_int(CMP(e.lift(a[0], s), e.lift(a[1], s)))))]))
+
+    c = pack.contract("basilisp.lang.runtime:_compare_decimal")
+    c.label = "against a float"
+    c.param("x", T(lambda v: V.is_dec(v), None, "Decimal")).param("y", T(lambda v: V.is_flt(v), None, "float"))
+    c.setup(dec_setup)
+    c.raises()
+    c.ensures("compare(decimal, float) is the opposite of compare(float, decimal) for the very same two values", lambda a: z3.And(V.is_int(a.result), V.Val.i(a.result) == -CMP(a.y, a.x)))
+
+    def rp_dec(m, ctx, ob):
+        return DEC_REPLAY
+
+    c.replay(rp_dec)
+    c.replay_without_model = True
+
     # compare on floats: NaN (documented design: compare with NaN is 0) -----------------------
     from pyvc import ops
 
@@ -638,6 +661,23 @@ for a, b, want in ((vec.v(None), vec.v(1), -1), (vec.v(1), vec.v(None), 1), (vec
 for line in bad:
     print(line)
 print("REPRODUCED" if bad else "not reproduced")
+'''
+
+
+DEC_REPLAY = r'''
+import decimal
+from basilisp.lang import runtime
+bad = []
+for d, f in ((decimal.Decimal('0.10000000000000001'), 0.1), (decimal.Decimal('0.1'), 0.1), (decimal.Decimal('1.5'), 1.5), (decimal.Decimal('-2.5'), 3.0),
+             (decimal.Decimal('9007199254740993'), 9007199254740992.0), (decimal.Decimal('1E+400'), 1.7976931348623157e308)):
+    try:
+        a, b = runtime.compare(d, f), runtime.compare(f, d)
+    except Exception as e:
+        a, b = '%s: %s' % (type(e).__name__, e), None
+    if b is None or a != -b:
+        bad.append('compare(%r, %r) -> %r but compare(%r, %r) -> %r' % (d, f, a, f, d, b))
+print('\n'.join(bad[:8]))
+print('REPRODUCED' if bad else 'not reproduced')
 '''
 
 
